@@ -27,7 +27,7 @@ func obRangeEnds(c *rules.Ctx, id string) {
 
 func init() {
 	Registry["C15"] = &Spec{
-		Explanation: "Decides structural necessary conditions of 'parsing recovers exactly the script written': (1) units - every Position.Character written while parsing is a sum of character-unit terms (ANTLR columns, utf8.RuneCount*, constants), never len(string); lines are ANTLR lines minus one; (2) a context range starts at the start token and ends at the stop token; (3) every conversion switch over the generated alternative contexts handles every alternative of its rule (no node kind dropped); (4) same-named field mapping in composite literals of the parser.",
+		Explanation: "Decides structural necessary conditions of 'parsing recovers exactly the script written': (1) units - every Position.Character written while parsing is a sum of character-unit terms (ANTLR columns, utf8.RuneCount*, constants), never len(string); lines are ANTLR lines minus one; (2) a context range starts at the start token and ends at the stop token; (3) every conversion switch over the generated alternative contexts handles every alternative of its rule (no node kind dropped); (4) same-named field mapping in composite literals of the parser; (5) Position.GtEq and Range.Contains are evaluated abstractly over all orderings of their operands (they only compare integers) and must be the lexicographic order and start <= position <= end.",
 		NotDecided:  []string{"invariance under whitespace/comments and left-associativity (lexer channel and ATN of the generated parser)", "literal values beyond the conversion rules of C13/C14", "containment of children in parents (follows from ANTLR token nesting, assumption A2)"},
 		Assumptions: []string{A1, A2, A4},
 		Run: func(c *rules.Ctx) {
@@ -35,6 +35,8 @@ func init() {
 			obRangeEnds(c, "C15.2a")
 			ob := c.R.Ob("C15.4", "sumcheck/S1", "every parse-tree conversion switch handles every alternative context of its rule (plus the bare context of error recovery)", 10)
 			c.S1(ob, selPkgs(map[string]bool{relParser: true}, nil, relParser))
+			ob5 := c.R.Ob("C15.5", "cmp-pattern", "position ordering is lexicographic on (line, character) and containment is start <= position <= end", 2)
+			c.PositionOrder(ob5)
 			obm := c.R.Ob("C15.6", "mapping", "same-named fields are mapped to each other in composite literals of the parser", 0)
 			c.Mapping(obm, map[string]bool{relParser: true})
 		},
